@@ -97,6 +97,19 @@ var c03Starts = func() []struct {
 		{"new+Encode", func() *stun.Message { m := new(stun.Message); m.Encode(); return m }},
 		{"New()+WriteHeader", func() *stun.Message { m := stun.New(); m.WriteHeader(); return m }},
 	}
+	// retained buffers whose capacity is not a multiple of 4 (caller-supplied or pooled storage), pre-filled with junk
+	for _, k := range []int{21, 26, 27, 29, 30, 31, 33, 35, 38, 41} {
+		k := k
+		starts = append(starts, st{fmt.Sprintf("Raw with cap %d + WriteHeader", k), func() *stun.Message {
+			back := make([]byte, k)
+			for i := range back {
+				back[i] = 0xAA
+			}
+			m := &stun.Message{Raw: back[:0]}
+			m.WriteHeader()
+			return m
+		}})
+	}
 	tid := [12]byte{1, 1, 2, 3, 5, 8, 13, 21, 34, 55, 89, 144}
 	fam := [][]ref.EncodeAttr{
 		{},
